@@ -208,3 +208,40 @@ META["C04"] = {
     "note": "Trusts testing/synctest's fake clock; a lock-held deadlock freezes the fake clock and is caught by the real-time watchdog (test time-out + solitary re-run of the journalled case).",
     "technique": "property-based testing (rapid) of generated timed histories on a fake clock (testing/synctest), invariant over the recorded history",
 }
+
+PROPS["C02"] = {
+    "rule": ("c02_wiring: histories of 2-24 timed events on a fake clock: proxy polls (distinct sids, any NAT/type/clients, "
+             "doors IPC and POST /proxy, scripted answers prompt / delayed / around the client timeout / never / for an unknown "
+             "id), client polls with unique offers (arbitrary UTF-8 incl. quotes/newlines, up to 10 KB) through the four doors "
+             "(IPC, POST /client, legacy POST, AMP GET) naming no / a listed / an unlisted / a malformed fingerprint, generated "
+             "bridge lists of 1-4 bridges (20- and 32-byte fingerprints, duplicate URLs), stray answers; event times drawn from a "
+             "grid with exact ties at 10 s and 20 s; each case repeated 3 (quick) / 10 (thorough) times. Oracle: history "
+             "invariants (1)-(5) of DESIGN.md C02. Non-trivial = >= 2 matches overlapping in time, or a match through a "
+             "non-default bridge (measured on the recorded history)."),
+    "assumptions": ["answers are a function of (sid, offer received), so a mis-routed answer is recognisable", "the harness mux mirrors main()'s route table"],
+    "units": [U("c02_wiring", "inpkg", "broker", "^TestVerifC02Wiring$", (300, 5000), timeout=(300, 3000), wedge_is_violation=True)],
+}
+META["C02"] = {
+    "level": "Sampled exploration of concurrent histories on a harness-owned clock with history invariants as oracle; all four client doors and both proxy doors are exercised against the same matcher.",
+    "note": "Trusts the recorded history (each request's response as seen by its caller) and that offers/answers are unique per case.",
+    "technique": "property-based testing (rapid): generated timed histories on a fake clock (testing/synctest), history-invariant oracle",
+}
+PROPS["C03"] = {
+    "rule": ("c03_matching: the C02 history generator, two thirds of the cases with pairwise distinct instants (the waiting set "
+             "at each client arrival is then known exactly), one third with ties and bursts. Oracle: post-hoc reference model "
+             "of the two pools: a matched proxy belongs to the client's eligible pool and was waiting at that instant; no "
+             "definitely-waiting eligible proxy that stayed unmatched has fewer clients than the one given; a refused client had "
+             "no definitely-waiting eligible proxy. Non-trivial = at some client arrival both pools are non-empty and the eligible "
+             "pool holds >= 2 distinct client counts, or a burst of >= 3 simultaneous clients. c03_matrix: the 5x5 wire-level NAT "
+             "matrix x 2 proxy doors x 4 client doors, enumerated exhaustively."),
+    "assumptions": ["for polls whose arrival or expiry coincides with the client's arrival either outcome is accepted"],
+    "units": [
+        U("c03_matching", "inpkg", "broker", "^TestVerifC03Matching$", (500, 8000), timeout=(300, 3000), wedge_is_violation=True),
+        U("c03_matrix", "inpkg", "broker", "^TestVerifC03Matrix$", (1, 1), shards=(1, 1)),
+    ],
+}
+META["C03"] = {
+    "level": "Sampled exploration with a reference model of the two waiting pools evaluated over recorded histories (validity predicate: any minimal-load eligible proxy is accepted); NAT compatibility matrix enumerated exhaustively through the wire formats.",
+    "note": "Trusts the fake clock's total order between distinct instants; tie outcomes are accepted either way.",
+    "technique": "property-based testing (rapid): model-based oracle over generated histories on a fake clock; exhaustive NAT matrix",
+}
